@@ -197,6 +197,10 @@ def run(ctx):
     if ctx.seed:
         import random
         random.Random(ctx.seed).shuffle(hists)
+    # the schedule dimension: two threads asking one chain state for balances (the miner's and the networking thread both
+    # read the state the chain manager hands out; the explorer command does so while the node runs)
+    from .. import thrscen
+    ctx.cov['thread_schedules'] = thrscen.run(ctx, 'C03', 2 if ctx.quick else 3)
     nchunk = ctx.ncpu * 8
     chunks = [hists[i::nchunk] for i in range(nchunk)]
     res = ctx.pmap(_worker_q if ctx.quick else _worker, [c for c in chunks if c])
@@ -235,6 +239,9 @@ def run(ctx):
 
 
 def replay(data, ctx):
+    if 'thread_scenario' in data:
+        from .. import thrscen
+        return thrscen.replay(data)
     hist = tuple(tuple(p) for p in data['hist'])
     st, out = _worker([hist])
     return [('ledger-' + k, w) for k, w, _ in out if k != 'valid-block-refused']
